@@ -32,7 +32,6 @@ impl<R: Round, const B: Word> Eq for FBig<R, B> {}
 fn repr_cmp_same_base<const B: Word, const ABS: bool>(
     lhs: &Repr<B>,
     rhs: &Repr<B>,
-    precision: Option<(usize, usize)>,
 ) -> Ordering {
     // case 1: compare with inf
     match (lhs.is_infinite(), rhs.is_infinite()) {
@@ -84,21 +83,12 @@ fn repr_cmp_same_base<const B: Word, const ABS: bool>(
         _ => {}
     }
 
-    // case 4: compare exponent and precision
+    // Note: the precision of the operands must not be used as a bound of their digits here,
+    // the significand is allowed to have more digits than the precision of the context
+    // (e.g. after a lossless base conversion).
     let (lhs_exp, rhs_exp) = (lhs.exponent, rhs.exponent);
-    if let Some((lhs_prec, rhs_prec)) = precision {
-        // only compare when both number are not having arbitrary precision
-        if lhs_prec != 0 && rhs_prec != 0 {
-            if lhs_exp > rhs_exp + rhs_prec as isize {
-                return sign * Ordering::Greater;
-            }
-            if rhs_exp > lhs_exp + lhs_prec as isize {
-                return sign * Ordering::Less;
-            }
-        }
-    }
 
-    // case 5: compare exponent and digits
+    // case 4: compare exponent and digits
     let (lhs_digits, rhs_digits) = (lhs.digits_ub(), rhs.digits_ub());
     if lhs_exp > rhs_exp + rhs_digits as isize {
         return sign * Ordering::Greater;
@@ -107,7 +97,7 @@ fn repr_cmp_same_base<const B: Word, const ABS: bool>(
         return sign * Ordering::Less;
     }
 
-    // case 6: compare exact values by shifting
+    // case 5: compare exact values by shifting
     let (lhs_signif, rhs_signif) = (&lhs.significand, &rhs.significand);
     if ABS {
         match lhs_exp.cmp(&rhs_exp) {
@@ -142,40 +132,28 @@ impl<const B: Word> PartialOrd for Repr<B> {
 impl<const B: Word> Ord for Repr<B> {
     #[inline]
     fn cmp(&self, other: &Self) -> Ordering {
-        repr_cmp_same_base::<B, false>(self, other, None)
+        repr_cmp_same_base::<B, false>(self, other)
     }
 }
 
 impl<R1: Round, R2: Round, const B: Word> PartialOrd<FBig<R2, B>> for FBig<R1, B> {
     #[inline]
     fn partial_cmp(&self, other: &FBig<R2, B>) -> Option<Ordering> {
-        Some(repr_cmp_same_base::<B, false>(
-            &self.repr,
-            &other.repr,
-            Some((self.context.precision, other.context.precision)),
-        ))
+        Some(repr_cmp_same_base::<B, false>(&self.repr, &other.repr))
     }
 }
 
 impl<R: Round, const B: Word> Ord for FBig<R, B> {
     #[inline]
     fn cmp(&self, other: &Self) -> Ordering {
-        repr_cmp_same_base::<B, false>(
-            &self.repr,
-            &other.repr,
-            Some((self.context.precision, other.context.precision)),
-        )
+        repr_cmp_same_base::<B, false>(&self.repr, &other.repr)
     }
 }
 
 impl<R: Round, const B: Word> AbsOrd for FBig<R, B> {
     #[inline]
     fn abs_cmp(&self, other: &Self) -> Ordering {
-        repr_cmp_same_base::<B, true>(
-            &self.repr,
-            &other.repr,
-            Some((self.context.precision, other.context.precision)),
-        )
+        repr_cmp_same_base::<B, true>(&self.repr, &other.repr)
     }
 }
 
